@@ -604,6 +604,102 @@ def order_model(prog, rep):
 
 
 # ------------------------------------------------------------------------------
+# `rcfg[k] % expand` in PMGRLaunchingComponent._start_pilot_bulk
+#
+PDESC = ('pilot_description.py', 'PilotDescription')
+_FMT  = re.compile(r'%(?:\((?P<key>[^)]*)\))?[#0\- +]*(?:\*|\d+)?'
+                   r'(?:\.(?:\*|\d+))?[hlL]?(?P<conv>.)?', re.S)
+
+
+def expand_model(prog, rep):
+    """None if _start_pilot_bulk does not %-expand the string values of the
+    resource config; else the set of keys of the `expand` mapping: 'pd.<k>',
+    'pd.<K>', 'pd.<k.lower()>' for every PilotDescription attribute k"""
+    f = prog.method(PMGRL[0], PMGRL[1], '_start_pilot_bulk')
+    rep.saw(f)
+    expands = False
+    for n in walk(f.node):
+        if isinstance(n, ast.For) and isinstance(n.iter, ast.Name) and \
+                n.iter.id == 'rcfg':
+            for x in walk(n):
+                if isinstance(x, ast.BinOp) and isinstance(x.op, ast.Mod) and \
+                        isinstance(x.left, ast.Subscript) and \
+                        unparse(x.left.value) == 'rcfg' and \
+                        isinstance(x.right, ast.Name):
+                    expands = x.right.id
+    if not expands:
+        return None
+    forms = set()
+    for n in walk(f.node):
+        if isinstance(n, ast.Assign) and len(n.targets) == 1 and \
+                isinstance(n.targets[0], ast.Subscript) and \
+                unparse(n.targets[0].value) == expands:
+            sl = n.targets[0].slice
+            if isinstance(sl, ast.BinOp) and isinstance(sl.op, ast.Mod) and \
+                    isinstance(sl.left, ast.Constant) and \
+                    sl.left.value == 'pd.%s':
+                r = sl.right
+                if isinstance(r, ast.Name):
+                    forms.add('id')
+                elif isinstance(r, ast.Call) and \
+                        isinstance(r.func, ast.Attribute) and \
+                        r.func.attr in ('upper', 'lower'):
+                    forms.add(r.func.attr)
+                else:
+                    raise AnalysisError('UNRECOGNISED-IDIOM %s: %s'
+                                        % (f.where, short(n)))
+            else:
+                raise AnalysisError('UNRECOGNISED-IDIOM %s: %s'
+                                    % (f.where, short(n)))
+    if not forms:
+        raise AnalysisError('UNRECOGNISED-IDIOM %s: the expansion mapping %r '
+                            'is not filled from the pilot description'
+                            % (f.where, expands))
+    pd = prog.cls(*PDESC)
+    keys = set()
+    for k in prog.mro(pd):
+        dd = k.consts.get('_defaults')
+        if isinstance(dd, ast.Dict):
+            for kk in dd.keys:
+                v = prog.fold(k.module, kk, k) if kk is not None else UNKNOWN
+                if isinstance(v, str):
+                    keys.add(v)
+    if not keys:
+        raise AnalysisError('UNRECOGNISED-IDIOM %s._defaults' % pd.where)
+    out = set()
+    for k in keys:
+        if 'id' in forms:
+            out.add('pd.' + k)
+        if 'upper' in forms:
+            out.add('pd.' + k.upper())
+        if 'lower' in forms:
+            out.add('pd.' + k.lower())
+    return out
+
+
+def expansion_problem(text, keys):
+    """why `text % mapping` raises (None if it does not)"""
+    for m in _FMT.finditer(text):
+        key, conv = m.group('key'), m.group('conv')
+        if conv is None:
+            return 'incomplete format `%s` (ValueError)' % m.group(0)
+        if conv == '%' and key is None:
+            continue
+        if conv not in 'diouxXeEfFgGcrsa%':
+            return 'unsupported format character in `%s` (ValueError): a ' \
+                   'literal percent sign must be written %%%%' % m.group(0)
+        if key is None:
+            if conv in 'rsa':
+                continue
+            return '`%s` needs a number, gets the mapping (TypeError)' \
+                % m.group(0)
+        if key not in keys:
+            return 'placeholder `%s` names no pilot description attribute ' \
+                   '(KeyError)' % m.group(0)
+    return None
+
+
+# ------------------------------------------------------------------------------
 # R17.1
 #
 class Ctx:
@@ -628,6 +724,7 @@ def build_ctx(prog, rep):
     c.comp   = factory_table(prog, rep, COMP,  'create',      'R17.1t')
     c.tmgrs  = factory_table(prog, rep, TMGRS, 'create',      'R17.1t')
     c.lm_protected = order_model(prog, rep)
+    c.expand = expand_model(prog, rep)
     for t, want in ((c.sched, 'agent_scheduler'), (c.execu, 'agent_spawner')):
         rep.check(t.keyattr in c.td.schema, 'R17.1t', t.func,
                   '%s reads its name from a key of %s._schema (%r)'
@@ -751,6 +848,22 @@ def check_entry(prog, rep, ctx, rel, text, site, label, entry, rid='R17.1'):
                   loc=loc, history=hist + ': _start_pilot_bulk builds '
                   'ru.Url(None) / no launcher can submit the job')
 
+        # string values are %-expanded with the pilot description
+        if ctx.expand is not None:
+            for k in sorted(m):
+                v = m[k]
+                if not isinstance(v, str) or '%' not in v:
+                    continue
+                why = expansion_problem(v, ctx.expand)
+                rep.check(why is None, rid, where, what + 'value of %r '
+                          'survives `%% expand` in _start_pilot_bulk' % k,
+                          construct='expand:%s' % k,
+                          message='%s: %r = %r cannot be %%-expanded with the '
+                          'pilot description in PMGRLaunchingComponent.'
+                          '_start_pilot_bulk: %s' % (res, k, v, why), loc=loc,
+                          history=hist + ': the bulk launch raises, the pilot '
+                          'becomes FAILED')
+
         # resource manager
         rm = m.get('resource_manager')
         rep.check(rm in ctx.rm, rid, where, what + 'resource_manager %r is in '
@@ -868,11 +981,11 @@ def check_entry(prog, rep, ctx, rel, text, site, label, entry, rid='R17.1'):
 def r17_1(prog, rep, ctx, rid='R17.1'):
     rep.rule('R17.1t', 'every row of the factory tables (get_manager, the four '
              'create methods, TMGR scheduler) resolves to an existing class of '
-             'the right family', minimum=63)
+             'the right family', minimum=50)
     rep.rule(rid, 'every entry of every shipped resource_*.json, under each '
              'schema and after the merge/verify of get_resource_config, names '
              'a known RM, launch methods, order, scheduler, executor and '
-             'agent config', minimum=1100)
+             'agent config', minimum=1000)
     n_res = n_pairs = 0
     for rel in ctx.files:
         base = rel.split('/')[-1]
@@ -1256,7 +1369,7 @@ def r17_3(prog, rep, rid='R17.3'):
              'cores/gpus are one definition; the node count is the ceiling of '
              'the larger of cores/avail-cores and gpus/avail-gpus, the '
              'divisors depending on SMT and the blocked lists; the agent '
-             'reads the keys written', minimum=14)
+             'reads the keys written', minimum=12)
     f = prog.method(PMGRL[0], PMGRL[1], '_prepare_pilot')
     rep.saw(f)
     g = cfg_of(f)
@@ -1307,13 +1420,12 @@ def r17_3(prog, rep, rid='R17.3'):
     # the node computation
     divs = [n for n in walk(f.node) if isinstance(n, ast.BinOp) and
             isinstance(n.op, (ast.Div, ast.FloorDiv))]
-    core_div = [n for n in divs if 'rcfg.cores_per_node' in
-                d.expr_depends(n.right) and 'rcfg.gpus_per_node' not in
-                d.reads(n.right) | _direct(d, n.right)]
-    gpu_div  = [n for n in divs if 'rcfg.gpus_per_node' in
-                d.expr_depends(n.right) and 'rcfg.cores_per_node' not in
-                d.reads(n.right) | _direct(d, n.right)]
-    core_div = [n for n in core_div if n not in gpu_div]
+    def dep_on(n, key):
+        return key in d.expr_depends(n.right)
+    core_div = [n for n in divs if dep_on(n, 'rcfg.cores_per_node') and
+                not dep_on(n, 'rcfg.gpus_per_node')]
+    gpu_div  = [n for n in divs if dep_on(n, 'rcfg.gpus_per_node') and
+                not dep_on(n, 'rcfg.cores_per_node')]
     if len(core_div) != 1 or len(gpu_div) != 1:
         raise AnalysisError('UNRECOGNISED-IDIOM %s: expected one division by '
                             'the cores per node and one by the gpus per node, '
@@ -1479,14 +1591,6 @@ def r17_3(prog, rep, rid='R17.3'):
                             % (rf.where, sorted(set(AGENT_KEYS) - seen)))
 
 
-def _direct(d, expr):
-    """one assignment step behind the names an expression reads"""
-    out = set()
-    for r in d.reads(expr):
-        out |= d.edges.get(r, set())
-    return out
-
-
 # ------------------------------------------------------------------------------
 #
 def run(prog, rep, tier):
@@ -1523,10 +1627,172 @@ def run(prog, rep, tier):
     r17_1(prog, rep, ctx)
     r17_2(prog, rep, ctx)
     r17_3(prog, rep)
+    if tier == 'thorough':
+        # sweep: every factory in the package which selects a class through a
+        # dict literal (stagers, tmgr schedulers, ...) has resolvable rows
+        rep.rule('R17.1ts', 'sweep of R17.1t over every create()/get_manager() '
+                 'factory table in the package', minimum=0)
+        n = 0
+        for c in sorted(prog.all_classes(), key=lambda k: k.where):
+            for mname in ('create', 'get_manager'):
+                f = c.methods.get(mname)
+                if f is None or not any(
+                        isinstance(x, ast.Assign) and
+                        isinstance(x.value, ast.Dict) and x.value.keys
+                        for x in walk(f.node)):
+                    continue
+                factory_table(prog, rep, (c.module.rel, c.name), mname,
+                              'R17.1ts')
+                n += 1
+        rep.stat('sweep_factories', n)
 
 
 # ------------------------------------------------------------------------------
 # self-test variants
 #
-MUTATIONS = []
-SILENT = []
+_UVA  = 'configs/resource_uva.json'
+_DBG  = 'configs/resource_debug.json'
+_ADEF = 'configs/agent_default.json'
+_TMGR = 'configs/tmgr_default.json'
+_RMB  = 'agent/resource_manager/base.py'
+_LMB  = 'agent/launch_method/base.py'
+_SCB  = 'agent/scheduler/base.py'
+_EXB  = 'agent/executing/base.py'
+_CMP  = 'utils/component.py'
+_SES  = 'session.py'
+_RCF  = 'resource_config.py'
+_PML  = 'pmgr/launching/base.py'
+
+MUTATIONS = [
+    # ---- resource configs ---------------------------------------------------
+    dict(name='R17.1 resource names an unknown resource manager', rules=('R17.1',), edits=[
+        (_UVA, '"resource_manager"            : "SLURM",', '"resource_manager"            : "SLURM2",')]),
+    dict(name='R17.1 resource names an unknown launch method', rules=('R17.1',), edits=[
+        (_UVA, '"order": ["SRUN"],\n                                         "SRUN" : {}',
+               '"order": ["SRUN_MPI"],\n                                         "SRUN_MPI" : {}')]),
+    dict(name='R17.1 order entry which is not a configured method', rules=('R17.1',), edits=[
+        (_DBG, '"order" : ["FORK", "MPIRUN"],', '"order" : ["FORK", "MPIRUN", "SSH"],')]),
+    dict(name='R17.1 resource names an unknown agent scheduler', rules=('R17.1',), edits=[
+        (_UVA, '"agent_scheduler"             : "CONTINUOUS",', '"agent_scheduler"             : "CONTINUOUS_FIFO",')]),
+    dict(name='R17.1 resource names an unknown agent spawner', rules=('R17.1',), edits=[
+        (_UVA, '"agent_spawner"               : "POPEN",', '"agent_spawner"               : "SHELL",')]),
+    dict(name='R17.1 resource names an agent config which is not shipped', rules=('R17.1',), edits=[
+        (_DBG, '"agent_config"                : "default_sa",', '"agent_config"                : "default_ma",')]),
+    dict(name='R17.1 default_schema is not one of the schemas', rules=('R17.1',), edits=[
+        (_UVA, '"default_schema"              : "local",', '"default_schema"              : "slurm",')]),
+    dict(name='R17.1 schema without filesystem endpoint', rules=('R17.1',), edits=[
+        (_UVA, '"job_manager_endpoint": "slurm+ssh://rivanna.hpc.virginia.edu/",\n                "filesystem_endpoint" : "sftp://rivanna.hpc.virginia.edu/"',
+               '"job_manager_endpoint": "slurm+ssh://rivanna.hpc.virginia.edu/"')]),
+    dict(name='R17.1 cores_per_node given as a word', rules=('R17.1',), edits=[
+        (_DBG, '"cores_per_node"              :  16,', '"cores_per_node"              :  "sixteen",')]),
+    dict(name='R17.1 misspelled top level key', rules=('R17.1',), edits=[
+        (_DBG, '"gpus_per_node"               :   4,', '"gpu_per_node"                :   4,')]),
+    dict(name='R17.1 trailing comment ru.read_json cannot strip', rules=('R17.1',), edits=[
+        (_UVA, '"default_queue"               : "standard",', '"default_queue"               : "standard",   # was: parallel')]),
+    dict(name='R17.1 launch method config is not an object', rules=('R17.1',), edits=[
+        (_UVA, '"SRUN" : {}', '"SRUN" : "srun"')]),
+    dict(name='R17.1 placeholder names no pilot description attribute', rules=('R17.1',), edits=[
+        ('configs/resource_csc.json', '"default_remote_workdir"      : "/scratch/%(pd.project)s",', '"default_remote_workdir"      : "/scratch/%(pd.account)s",')]),
+    dict(name='R17.1 literal percent sign in a description', rules=('R17.1',), edits=[
+        (_UVA, '"description"                 : "Heterogeneous community-model Linux cluster",', '"description"                 : "Heterogeneous community-model Linux cluster, 30% GPU nodes",')]),
+    dict(name='R17.1 default agent config renamed in ResourceConfig._defaults', rules=('R17.1',), edits=[
+        (_RCF, "AGENT_CONFIG           : 'default'   ,", "AGENT_CONFIG           : 'agent_default',")]),
+    # ---- factory tables -----------------------------------------------------
+    dict(name='R17.1 PBSPRO row removed from the RM table', rules=('R17.1',), edits=[
+        (_RMB, "            RM_NAME_PBSPRO : PBSPro,\n", "")]),
+    dict(name='R17.1 MPIEXEC_MPT row removed from the LM table', rules=('R17.1',), edits=[
+        (_LMB, "            LM_NAME_MPIEXEC_MPT   : MPIExec,\n", "")]),
+    dict(name='R17.1 CONTINUOUS_JSRUN row removed (JSRUN switch target)', rules=('R17.1',), edits=[
+        (_SCB, "            SCHEDULER_NAME_CONTINUOUS_JSRUN    : ContinuousJsrun,\n", "")]),
+    dict(name='R17.1 DRAGON row removed from the executor table', rules=('R17.1',), edits=[
+        (_EXB, "            EXECUTING_NAME_DRAGON: Dragon,\n", "")]),
+    dict(name='R17.1 LM enum value changed (SRUN -> SLURM_SRUN)', rules=('R17.1',), edits=[
+        (_LMB, "LM_NAME_SRUN          = 'SRUN'", "LM_NAME_SRUN          = 'SLURM_SRUN'")]),
+    dict(name='R17.1t import names a class the module does not define', rules=('R17.1t',), edits=[
+        (_LMB, "        from .srun           import Srun\n", "        from .srun           import SRun as Srun\n")]),
+    dict(name='R17.1t RM table row points to the launch method Fork', rules=('R17.1t',), edits=[
+        (_RMB, "        from .fork    import Fork\n", "        from ..launch_method.fork import Fork\n")]),
+    dict(name='R17.1t executor factory reads a key the resource config lacks', rules=('R17.1t',), edits=[
+        (_EXB, "        name = session.rcfg.agent_spawner\n", "        name = session.rcfg.spawner\n")]),
+    dict(name='R17.1 merge policy PRESERVE keeps the empty endpoints', rules=('R17.1',), edits=[
+        (_SES, "        ru.dict_merge(rcfg, scfg, ru.OVERWRITE)", "        ru.dict_merge(rcfg, scfg, ru.PRESERVE)")]),
+    # ---- agent / tmgr configs -----------------------------------------------
+    dict(name='R17.2 tmgr scheduler name not in the table', rules=('R17.2',), edits=[
+        (_TMGR, '"scheduler" : "round_robin",', '"scheduler" : "roundrobin",')]),
+    dict(name='R17.2 agent config drops the collecting queue', rules=('R17.2',), edits=[
+        (_ADEF, '        "agent_collecting_queue"     : {"kind": "queue"},\n', '')]),
+    dict(name='R17.2 misspelled component kind', rules=('R17.2',), edits=[
+        (_ADEF, '        "agent_executing"      : {"count" : 1},', '        "agent_execution"      : {"count" : 1},')]),
+    dict(name='R17.2 component table row removed', rules=('R17.2',), edits=[
+        (_CMP, "                rpc.AGENT_EXECUTING_COMPONENT      : rpa.Executing,\n", "")]),
+    dict(name='R17.2 executor publishes on a pubsub the agent configs lack', rules=('R17.2',), edits=[
+        (_EXB, "        self.register_publisher(rpc.AGENT_UNSCHEDULE_PUBSUB)", "        self.register_publisher(rpc.TMGR_STAGING_INPUT_QUEUE)")]),
+    # ---- _prepare_pilot -----------------------------------------------------
+    dict(name='R17.3 agent told the requested, job the allocated cores', rules=('R17.3',), edits=[
+        (_PML, "        agent_cfg['cores']               = allocated_cores", "        agent_cfg['cores']               = requested_cores")]),
+    dict(name='R17.3 job node count ignores the backup nodes', rules=('R17.3',), edits=[
+        (_PML, "        jd_dict.node_count            = requested_nodes + backup_nodes", "        jd_dict.node_count            = requested_nodes")]),
+    dict(name='R17.3 gpu count recomputed between the two sinks', rules=('R17.3',), edits=[
+        (_PML, "        jd_dict.total_gpu_count       = allocated_gpus", "        allocated_gpus = requested_gpus\n        jd_dict.total_gpu_count       = allocated_gpus")]),
+    dict(name='R17.3 node count truncated instead of rounded up', rules=('R17.3',), edits=[
+        (_PML, "            requested_nodes = math.ceil(requested_nodes)", "            requested_nodes = int(requested_nodes)")]),
+    dict(name='R17.3 gpu and core demands combined with min', rules=('R17.3',), edits=[
+        (_PML, "                requested_nodes = max(requested_gpus / avail_gpus_per_node,", "                requested_nodes = min(requested_gpus / avail_gpus_per_node,")]),
+    dict(name='R17.3 gpu demand replaces the core demand', rules=('R17.3',), edits=[
+        (_PML, "                requested_nodes = max(requested_gpus / avail_gpus_per_node,\n                                      requested_nodes)", "                requested_nodes = requested_gpus / avail_gpus_per_node")]),
+    dict(name='R17.3 SMT not applied to the divisor', rules=('R17.3',), edits=[
+        (_PML, "        if cores_per_node and smt:\n            cores_per_node *= smt\n", "")]),
+    dict(name='R17.3 blocked cores not subtracted', rules=('R17.3',), edits=[
+        (_PML, "            avail_cores_per_node -= len(blocked_cores)\n", "")]),
+    dict(name='R17.3 blocked gpus not subtracted', rules=('R17.3',), edits=[
+        (_PML, "            avail_gpus_per_node -= len(blocked_gpus)\n", "")]),
+    dict(name='R17.3 nodes computed from the raw cores per node', rules=('R17.3',), edits=[
+        (_PML, "                requested_nodes = requested_cores / avail_cores_per_node", "                requested_nodes = requested_cores / rcfg.cores_per_node")]),
+    dict(name='R17.3 agent reads a key _prepare_pilot does not write', rules=('R17.3',), edits=[
+        (_RMB, "        rm_info.requested_nodes  = self._cfg.nodes", "        rm_info.requested_nodes  = self._cfg.requested_nodes")]),
+    dict(name='R17.3 agent takes its core count from the node key', rules=('R17.3',), edits=[
+        (_RMB, "        rm_info.requested_cores  = self._cfg.cores\n", "        rm_info.requested_cores  = self._cfg.nodes\n")]),
+]
+
+SILENT = [
+    dict(name='whole-line comment and reflowed values in a resource config', edits=[
+        (_UVA, '        "default_queue"               : "standard",', '      # "default_queue"               : "parallel",\n        "default_queue":"standard",')]),
+    dict(name='order omitted where it equals the configured methods', edits=[
+        (_UVA, '"order": ["SRUN"],\n                                         "SRUN" : {}', '"SRUN" : {}')]),
+    dict(name='launch method with its own options, spawner given explicitly twice', edits=[
+        (_UVA, '"SRUN" : {}', '"SRUN" : {"pre_exec_cached": ["module load slurm"]}')]),
+    dict(name='agent config given inline', edits=[
+        (_DBG, '"agent_config"                : "default_sa",', '"agent_config"                : {"target": "local", "bridges": {}, "components": {}},')]),
+    dict(name='additional schema and numeric strings which verify() casts', edits=[
+        (_DBG, '"cores_per_node"              :  16,', '"cores_per_node"              :  "16",')]),
+    dict(name='escaped percent sign and upper-case placeholder', edits=[
+        (_UVA, '"default_remote_workdir"      : "/scratch/$USER",', '"default_remote_workdir"      : "/scratch/%(pd.PROJECT)s/100%%/$USER",')]),
+    dict(name='factory table renamed', edits=[
+        (_LMB, "        impl = {\n            LM_NAME_APRUN ", "        table = {\n            LM_NAME_APRUN "),
+        (_LMB, "        if name not in impl:\n            raise ValueError('LaunchMethod %s unknown' % name)\n\n        return impl[name](name, lm_cfg, rm_info, log, prof)",
+               "        if name not in table:\n            raise ValueError('LaunchMethod %s unknown' % name)\n\n        return table[name](name, lm_cfg, rm_info, log, prof)")]),
+    dict(name='JSRUN switch as one conjunction', edits=[
+        (_SCB, "        if 'JSRUN' in session.rcfg.launch_methods:\n            if name == SCHEDULER_NAME_CONTINUOUS:\n                name = SCHEDULER_NAME_CONTINUOUS_JSRUN\n",
+               "        if name == SCHEDULER_NAME_CONTINUOUS and \\\n           'JSRUN' in session.rcfg.launch_methods:\n            name = SCHEDULER_NAME_CONTINUOUS_JSRUN\n")]),
+    dict(name='get_manager with explicit membership test', edits=[
+        (_RMB, "        return impl.get(name)\n", "        if name in impl:\n            return impl[name]\n        return None\n")]),
+    dict(name='merge policy passed by keyword', edits=[
+        (_SES, "        ru.dict_merge(rcfg, scfg, ru.OVERWRITE)", "        ru.dict_merge(rcfg, scfg, policy=ru.OVERWRITE)")]),
+    dict(name='spawner name read through a temporary', edits=[
+        (_EXB, "        name = session.rcfg.agent_spawner\n", "        rcfg = session.rcfg\n        name = rcfg.agent_spawner\n")]),
+    dict(name='unused extra bridge in the agent config', edits=[
+        (_ADEF, '        "agent_collecting_queue"     : {"kind": "queue"},\n', '        "agent_collecting_queue"     : {"kind": "queue"},\n        "agent_debug_pubsub"         : {"kind": "pubsub"},\n')]),
+    dict(name='node count through a temporary, sum commuted', edits=[
+        (_PML, "        jd_dict.node_count            = requested_nodes + backup_nodes", "        n_total = backup_nodes + requested_nodes\n        jd_dict.node_count            = n_total")]),
+    dict(name='core count copied into a temporary before the job sink', edits=[
+        (_PML, "        jd_dict.total_cpu_count       = allocated_cores", "        n_cores = allocated_cores\n        jd_dict.total_cpu_count       = n_cores")]),
+    dict(name='ceil wrapped in int()', edits=[
+        (_PML, "            requested_nodes = math.ceil(requested_nodes)", "            requested_nodes = int(math.ceil(requested_nodes))")]),
+    dict(name='blocked cores subtracted in one expression', edits=[
+        (_PML, "        avail_cores_per_node = cores_per_node\n", "        avail_cores_per_node = cores_per_node - len(blocked_cores)\n"),
+        (_PML, "        if avail_cores_per_node and blocked_cores:\n            avail_cores_per_node -= len(blocked_cores)\n            assert (avail_cores_per_node > 0)\n", "        assert (not cores_per_node or avail_cores_per_node > 0)\n")]),
+    dict(name='agent reads its node count by subscript', edits=[
+        (_RMB, "        rm_info.requested_nodes  = self._cfg.nodes", "        rm_info.requested_nodes  = self._cfg['nodes']")]),
+    dict(name='max() arguments swapped', edits=[
+        (_PML, "                requested_nodes = max(requested_gpus / avail_gpus_per_node,\n                                      requested_nodes)", "                requested_nodes = max(requested_nodes,\n                                      requested_gpus / avail_gpus_per_node)")]),
+]
